@@ -14,11 +14,18 @@ in addition:
                  nodesvcs node | nodesvclist node | nodechecks node | svcchecks name | checksinstate st |
                  csn name | csnconnect name | csntag name tag | pqget id | pqlist
 
-Every answer is computed by `CV.Store.Query.run` / `Query.fired`, the functions the theorems of
-CV.Props.C06 are about.
+  bq <min> <evals>       a scripted request against the blocking loop (round 5): <evals> is a comma list of
+                         <raw index>:<n|f|c>:<0|1> — the index the k-th call of the query function stores, the
+                         sentinel it returns (none / ErrNotFound / ErrNotChanged) and whether its WatchSet is
+                         woken; the answer  evals=<number of calls> idx=<index of the response>  is computed by
+                         CV.BQ.scriptRun (→ query → runF → loopF) over the reported indexes.
+
+Every answer is computed by `CV.Store.Query.run` / `Query.fired` / `CV.BQ.scriptRun`, the functions the
+theorems of CV.Props.C06 are about.
 -/
 import CV.Engine.StoreCore
 import CV.Store.Query
+import CV.BlockingQuery
 namespace CV.Engine.C06
 open CV CV.Store CV.Engine.StoreCore
 
@@ -89,9 +96,28 @@ def answer (s : Store.State) (q : Query) : String :=
   let r := q.run s
   s!"idx={r.1} rep={reported r.1} {showQRes r.2}"
 
+def parseEval (tok : String) : Option BQ.Eval :=
+  match tok.splitOn ":" with
+  | [i, s, w] => do
+    let idx ← i.toNat?
+    let sent ← (if s == "n" then some BQ.Sentinel.none else if s == "f" then some .notFound
+      else if s == "c" then some .notChanged else none)
+    let woken ← decBool w
+    pure { idx := reported idx, sent, woken }
+  | _ => none
+
+def answerBQ (minTok evalsTok : String) : String :=
+  match minTok.toNat?, (decList evalsTok).mapM parseEval with
+  | some m, some es =>
+    match BQ.scriptRun m es with
+    | some (n, i) => s!"evals={n} idx={i}"
+    | none => "bad-op"
+  | _, _ => "bad-op"
+
 def step (st : St) (toks : List String) : St × String :=
   match toks with
   | ["reset"] => ({}, "ok")
+  | ["bq", m, es] => (st, answerBQ m es)
   | ["dump"] => (st, dump st.cur)
   | "q" :: rest =>
     match parseQuery rest with
